@@ -96,6 +96,36 @@ def find_order(case_lines, impl_lines, idx0, values_only, extra=()):
     return None
 
 
+def inv_check(outdir, pid):
+    """Pipes outdir/inv_ops.txt (case / node lines, op lines each followed by `#D <digest of the real engine's state>`)
+    through the Lean checker of the PROVED engine invariant (`drv_engine inv`: one answer per `#D` line).  Returns
+    {"counts": {answer: n}, "fails": [oracle failures]}; the case of a failure is the block of the file it occurs in."""
+    src = os.path.join(outdir, "inv_ops.txt")
+    if not os.path.exists(src): return None
+    dst = os.path.join(outdir, "inv_out.txt")
+    rc, err = vlib.run_driver("drv_engine", src, dst, ["inv"])
+    if rc != 0: return {"error": f"drv_engine inv exited {rc}: {err[-600:]}"}
+    lines = open(src).read().split("\n")
+    res = [l for l in open(dst).read().split("\n") if l != ""]
+    n_d = sum(1 for l in lines if l.startswith("#D"))
+    if n_d != len(res): return {"error": f"drv_engine inv: {n_d} #D lines but {len(res)} answers"}
+    counts, fails, j, start, last_op = {}, [], 0, 0, ""
+    for i, l in enumerate(lines):
+        if l.startswith("case"): start = i
+        elif l.startswith("#D"):
+            r = res[j]; j += 1
+            key = " ".join(r.split()[:2])
+            counts[key] = counts.get(key, 0) + 1
+            if r.startswith(("inv FAIL", "inv bad-digest")):
+                sig = f"{pid}:state-invariant:inv:" + ":".join(r.split()[1:3])
+                if sum(1 for f in fails if f["sig"] == sig) < 2:
+                    end = next((k for k in range(i + 1, len(lines)) if lines[k].startswith("case")), len(lines))
+                    fails.append({"sig": sig, "desc": f"after `{last_op[:80]}` the Lean checker of the proved engine invariant answers `{r}` on the dumped state {l[3:500]}",
+                                  "case": "\n".join(x for x in lines[start:end] if not x.startswith("#D"))})
+        elif not l.startswith(("node", "#", "cfg")): last_op = l
+    return {"counts": counts, "fails": fails}
+
+
 def state_diff(model, impl):
     """first differing node of two digests: (key, differing field names, model node, impl node)"""
     mp = {x.split(":", 1)[0]: x for x in model.split(" ; ") if x}
